@@ -417,15 +417,15 @@ func TestActionBinding(t *testing.T) {
 		out, err := exec.Command(filepath.Join(g.dir, "prog")).CombinedOutput()
 		got := strings.TrimSpace(string(out))
 		if err != nil {
-			rep.fail("C06/values-flow-to-action-parameters", c.name, "the program failed: "+tailStr(got, 400))
+			rep.fail("C03+C06/values-flow-to-action-parameters", c.name, "the program failed: "+tailStr(got, 400))
 			return
 		}
 		if !strings.HasPrefix(got, "ok=true ") {
-			rep.fail("C06/values-flow-to-action-parameters", c.name, "the sentence NUM PLUS NUM COMMA NUM was not parsed: "+got)
+			rep.fail("C03+C06/values-flow-to-action-parameters", c.name, "the sentence NUM PLUS NUM COMMA NUM was not parsed: "+got)
 			return
 		}
 		if !strings.HasSuffix(got, "zeros=[]") {
-			rep.fail("C06/values-flow-to-action-parameters", c.name, "an action parameter received a zero value instead of the value of its term: "+got)
+			rep.fail("C03+C06/values-flow-to-action-parameters", c.name, "an action parameter received a zero value instead of the value of its term: "+got)
 			return
 		}
 		rep.sample(c.name + ": " + got)
